@@ -41,7 +41,7 @@ contract(MD, "Dataset.create", props=["C08", "C20", "C06"],
     # directory are valid (vacuous for a new directory); kept by creation
     requires=["DISK_OK(path)"],
     returns="ref:Dataset", modifies=["DatasetBase.path", "DatasetBase._dataset_info", "DatasetInfo.metadata",
-                                     "DatasetInfo.dataset_structure", "DatasetInfo.splits", "ghost:fs"],
+                                     "DatasetInfo.dataset_structure", "DatasetInfo.splits", "ghost:fs", "ghost:cert"],
     ensures=[
         "fresh(result) and result.path == path",
         ("C08", "old(dstate(PJOIN(path, 'dataset_info.json'))) != 2"),     # only where no dataset exists
